@@ -547,8 +547,8 @@ def check_C10(tier, rng, rep):
                                                               acts=("make", "bin", "query", "transform")))
     acts = ("make", "mkreg", "bin", "inv", "copy", "invert", "transform", "query", "alias")
     o = {"check_c10": True, "record_obs": True}
-    sims, jobs = sim_jobs([rng.choice(U2[2:]), rng.choice(U3)] if quick else U2 + U3, ["poly-frac", "poly-float", "quad-float"] if quick else POLY + CURVED,
-                          num=20 if quick else 120, depth=12, seed=runner.seed() + 10, opts=o,
+    sims, jobs = sim_jobs([rng.choice(U2[2:]), rng.choice(U3)] if quick else U2 + U3, ["poly-frac", "quad-float"] if quick else POLY + CURVED,
+                          num=16 if quick else 120, depth=12, seed=runner.seed() + 10, opts=o,
                           acts=acts, gens=GEN_SMALL, maxframe=2, regs=3, maxobj=6, constraint="SimDomain")
     for un, r in sims:
         rep.add_tlc("ShapeSys-sim/" + un, r)
@@ -559,7 +559,7 @@ def check_C10(tier, rng, rep):
     history_sims(rep, rng, quick, props=ALLP | {"C10"}, c10=True, num=60, rows_per=36)
     # the same behaviours in fresh interpreters: other hash seeds, cold and pre-warmed
     # module-level memo tables; observation logs must be identical
-    sub = runner.sample(list(range(len(jobs))), 16 if quick else 120, rng)
+    sub = runner.sample(list(range(len(jobs))), 10 if quick else 120, rng)
     base = {res[i]["case"] + "/" + jobs[i][1]: res[i] for i in sub}
     chunks = [(hs, warm) for hs, warm in ((1, False), (2, True))]
     import concurrent.futures as cf
